@@ -111,3 +111,49 @@ Example ex_run_wf :
   | None => False
   end.
 Proof. vm_compute. repeat split; reflexivity. Qed.
+
+(* ---------------- tan: the entry index (internal/tan/index.go) ---------------- *)
+From DB Require Import Model.TanIndex Proofs.TanIndex.
+
+(* INVARIANT of index.update: the index stays sorted, its ranges non-empty and pairwise
+   disjoint (sorted_idx reads the slice from its last entry backwards) *)
+Theorem tan_index_sorted_disjoint : forall es e, sorted_idx es -> wf_ie e ->
+  sorted_idx (index_update es e).
+Proof. exact tan_index_sorted_disjoint_proved. Qed.
+Print Assumptions tan_index_sorted_disjoint.
+
+(* LATEST WRITER WINS: after update e, [start,end] is indexed and addresses the new record,
+   every previously indexed position above it is gone, and below e.start the same positions
+   address the same records as before *)
+Theorem tan_index_latest_writer_wins : forall es e, sorted_idx es -> wf_ie e ->
+  (exists ie, In ie (index_update es e) /\ ie_start ie <= ie_start e /\ ie_end ie = ie_end e /\ same_record ie e) /\
+  (forall ie, In ie (index_update es e) -> ie_end ie <= ie_end e) /\
+  (forall x, x < ie_start e ->
+     (forall ie', In ie' (index_update es e) -> ie_start ie' <= x <= ie_end ie' ->
+        exists ie, In ie es /\ ie_start ie <= x <= ie_end ie /\ loc_eq ie' ie) /\
+     (forall ie, In ie es -> ie_start ie <= x <= ie_end ie ->
+        exists ie', In ie' (index_update es e) /\ ie_start ie' <= x <= ie_end ie' /\ loc_eq ie' ie)).
+Proof. exact tan_index_latest_writer_wins_proved. Qed.
+Print Assumptions tan_index_latest_writer_wins.
+
+(* index.query returns a gap-free chain of index entries taken from the index, the first
+   one containing low, all starting below high *)
+Theorem query_contiguous : forall es low high res ok, index_query es low high = IQRes res ok ->
+  low <= high /\ chain None res /\
+  (forall e, In e res -> In e es /\ ie_start e < high) /\
+  (match res with e :: _ => ie_start e <= low <= ie_end e | [] => True end) /\
+  (ok = false -> res = []).
+Proof. exact query_contiguous_proved. Qed.
+Print Assumptions query_contiguous.
+
+(* non-vacuity: merge, partial overwrite of the tail, and an overwrite that cuts two entries *)
+Example tan_index_example :
+  let i1 := index_update [] (mkIE 1 3 7 0 10) in
+  let i2 := index_update i1 (mkIE 4 6 7 10 10) in        (* merged: 1-6 *)
+  let i3 := index_update i2 (mkIE 5 5 7 20 10) in        (* partial overwrite: 1-4, 5-5 *)
+  let i4 := index_update i3 (mkIE 9 9 8 0 10) in         (* gap: 1-4, 5-5, 9-9 *)
+  let i5 := index_update i4 (mkIE 3 4 8 10 10) in        (* cuts 9-9 and 5-5, trims 1-4 *)
+  i2 = [mkIE 1 6 7 0 20] /\ i3 = [mkIE 1 4 7 0 20; mkIE 5 5 7 20 10] /\
+  i5 = [mkIE 1 2 7 0 20; mkIE 3 4 8 10 10] /\
+  index_query i4 2 20 = IQRes [mkIE 1 4 7 0 20; mkIE 5 5 7 20 10] true.
+Proof. vm_compute. repeat split; reflexivity. Qed.
